@@ -52,8 +52,12 @@ class RowHistory:
         """Save a row to temporary storage"""
         row_id = row["id"]
 
-        # keep track of highest ID
-        self.table_counters[tablename] = row_id
+        # keep track of highest ID. Rows can be saved out of id order (an id reserved
+        # ahead by a forward reference, nested rows of the same table, re-saved
+        # just_once rows): never move backwards
+        self.table_counters[tablename] = max(
+            row_id, self.table_counters.get(tablename) or 0
+        )
 
         if nickname:
             nickname_id = self._get_nickname_id(tablename, nickname)
